@@ -52,8 +52,19 @@ class C11(PipelineProp):
             # a scaffold without any contig (an all-N record, an AGP object made of gap lines only)
             inp["scaffolds"].insert(rng.randrange(len(inp["scaffolds"]) + 1),
                                     {"name": "allN_1", "rows": [["G", rng.choice([10, 500]), "scaffold"]]})
-        ptx, _ = P.gen_pretext(rng, inp, rng.choice(["edit", "edit", "edit", "null"]))
+        tagger = None
         gen = "edit"
+        if rng.random() < 0.3:
+            # haplotig removals: pieces of any size (sub-texel slivers included) tagged Haplotig
+            def tagger(rng_, ptx_, groups):
+                for gi, grp in enumerate(groups):
+                    k = 0
+                    for r in ptx_["scaffolds"][gi]["rows"]:
+                        if r[0] == "F":
+                            r[5] = (["Painted"] if grp[k]["painted"] else []) + (["Haplotig"] if rng_.random() < 0.3 else [])
+                            k += 1
+            gen = "edit+haplotigs"
+        ptx, _ = P.gen_pretext(rng, inp, rng.choice(["edit", "edit", "edit", "null"]), tagger=tagger)
         if rng.random() < 0.2:
             ptx = P.gen_garbage(rng, inp, ptx)
             gen = "garbage"
@@ -79,6 +90,15 @@ class C11(PipelineProp):
         if obs["breaks"] != breaks or obs["joins"] != joins:
             return (f"reported breaks={obs['breaks']} joins={obs['joins']}; input adjacencies no longer present = "
                     f"{breaks}, new output adjacencies = {joins}")
+        # the haplotig-removal count of the info file = haplotig scaffolds written (an entry without rows writes nothing)
+        pl = obs.get("plan")
+        if pl and pl.get("yaml"):
+            import yaml
+
+            reported = yaml.safe_load(pl["yaml"]).get("manual_haplotig_removals")
+            written = sum(1 for a in obs["asms"] if a["key"] == "Haplotig" for s_ in a["scaffolds"] if s_["rows"])
+            if reported != written:
+                return f"info.yaml reports {reported} haplotig removals, {written} haplotig scaffolds are written"
         return None
 
     def key(self, case, obs):
